@@ -241,8 +241,325 @@ def timeout_cases():
     return [Case(f"{PROP}/solve.solve_low_level", "future raises TimeoutExpired", harness, sources=("halmos.solve:solve_low_level",))]
 
 
+# ---------------------------------------------------------------------------------------
+# run_test: body of the loop over the yielded paths (classification of one path)
+
+
+def run_test_loop():
+    sf, node = loader.func_node(hm.run_test)
+    hits = [n for n in ast.walk(node) if isinstance(n, ast.For) and ast.unparse(n.iter) == "enumerate(exs)"]
+    if len(hits) != 1:
+        raise loader.BindingError(f"expected exactly one `for ... in enumerate(exs)` in run_test, found {len(hits)}")
+    return hits[0]
+
+
+class NS:
+    def __init__(self, **kw):
+        self.__dict__.update(kw)
+
+
+class StuckReason(Exception):
+    pass
+
+
+def mk_path_stub(kind):
+    """a yielded Exec of one of the four kinds the property distinguishes"""
+    out = NS(error=None if kind == "success" else ("revert" if kind in ("revert", "panic", "fail") else StuckReason("unsupported")), data=None if kind == "stuck" else b"")
+    cx = NS(output=out)
+    cx.is_stuck = lambda: kind == "stuck"
+    cx.get_stuck_reason = lambda: out.error
+    ex = NS(context=cx, call_sequence=[])
+    ex.path = NS(to_smt2=lambda args: "QUERY")
+    ex.is_panic_of = lambda codes: kind == "panic"
+    return ex
+
+
+def classification_cases():
+    out = []
+    kinds = ["success", "revert", "panic", "fail", "stuck:unsat", "stuck:sat", "stuck:unknown", "stuck:err", "shutdown"]
+    for kind in kinds:
+
+        def harness(interp, kind=kind):
+            ctx = interp.ctx
+            loop = run_test_loop()
+            k0 = kind.split(":")[0]
+            ex = mk_path_stub(k0 if k0 != "shutdown" else "success")
+            handled = []
+            handler = NS(handle_assertion_violation=lambda **kw: handled.append(kw))
+            shut = kind == "shutdown"
+            fctx = NS(solving_ctx=NS(executor=NS(is_shutdown=lambda: shut)), exec_cache={}, traces={})
+            width = SymInt(z3.Int("width"))
+            path_id = SymInt(z3.Int("path_id"))
+            normal0, potential0 = SymInt(z3.Int("normal0")), SymInt(z3.Int("potential0"))
+            for v in (width, path_id, normal0, potential0):
+                ctx.assume(v.e >= 0)
+            args = NS(debug=False, print_failed_states=False, verbose=0, print_blocked_states=False, print_success_states=False, print_states=False, width=width, panic_error_codes={1})
+            interp.contracts["halmos.__main__:is_global_fail_set"] = lambda i, a, k: k0 == "fail"
+            solved = []
+
+            def solve_low_level(i, a, k):
+                solved.append(a[0])
+                r = kind.split(":")[1]
+                return NS(result={"unsat": z3.unsat, "sat": z3.sat, "unknown": z3.unknown, "err": "err"}[r])
+
+            interp.contracts["halmos.solve:solve_low_level"] = solve_low_level
+            interp.contracts["halmos.solve:PathContext"] = lambda i, a, k: NS(**k)
+            stuck = []
+            env = Env({"ctx": fctx, "args": args, "ex": ex, "path_id": path_id, "handler": handler, "normal": normal0, "potential": potential0, "stuck": stuck, "flamegraph_enabled": False, "is_invariant": False, "funsig": "check_x()"}, None, hm.run_test.__globals__)
+            n_log = len(ctx.ghost_log)
+            kindr, payload, _ = interp.exec_fragment(loop.body, env, qual="halmos.__main__:run_test#path-loop", is_gen=False)
+            if kindr == "raise":
+                ctx.oblige(f"no-exception[{type(payload).__name__}]", z3.BoolVal(False), info={"msg": str(payload)[:200]})
+                return
+            normal, potential = env.lookup("normal"), env.lookup("potential")
+            dn = iexpr(normal) - normal0.e
+            dp = iexpr(potential) - potential0.e
+            if shut:
+                ctx.oblige("shutdown: exploration stops before the path is counted", z3.BoolVal(kindr == "break" and not handled and not stuck and not solved))
+                ctx.oblige("shutdown: counters unchanged", z3.And(dn == 0, dp == 0))
+                return
+            if k0 in ("panic", "fail"):
+                ok = len(handled) == 1 and handled[0].get("ex") is ex and handled[0].get("panic_found") == (k0 == "panic") and not stuck and not solved
+                ctx.oblige("assertion-violating path is handed to the solver exactly once", z3.BoolVal(ok), info={"handled": len(handled)})
+                ctx.oblige("counters: potential+1, normal unchanged", z3.And(dp == 1, dn == 0))
+            elif k0 == "stuck":
+                r = kind.split(":")[1]
+                ctx.oblige("stuck path: feasibility is asked of the solver once, on this path's query", z3.BoolVal(len(solved) == 1 and getattr(solved[0], "query", None) == "QUERY" and not handled))
+                kept = len(stuck) == 1 and stuck[0][1] is ex
+                if r == "unsat":
+                    ctx.oblige("stuck path proved infeasible (unsat) is dropped", z3.BoolVal(stuck == []))
+                else:
+                    ctx.oblige("stuck path is kept unless the solver says unsat (sat, unknown/timeout, error all keep it)", z3.BoolVal(kept), info={"solver": r})
+                ctx.oblige("counters unchanged", z3.And(dp == 0, dn == 0))
+            elif k0 == "success":
+                ctx.oblige("successful path is counted as normal", z3.And(dn == 1, dp == 0))
+                ctx.oblige("successful path: nothing sent to the solver, nothing stuck", z3.BoolVal(not handled and not stuck and not solved))
+            else:
+                ctx.oblige("reverted path counts as neither normal nor potential", z3.And(dn == 0, dp == 0))
+                ctx.oblige("reverted path: nothing sent to the solver, nothing stuck", z3.BoolVal(not handled and not stuck and not solved))
+            # --width: the loop is left exactly when the limit is set and reached, with a warning naming it
+            warned = any(e[0] == "warn" and "--width" in str(e[1][0]) for e in ctx.ghost_log[n_log:])
+            cut = z3.And(width.e > 0, path_id.e >= width.e)
+            ctx.oblige("width: loop left iff the limit is set and reached", z3.BoolVal(kindr == "break") == cut, info={"kind": kindr})
+            ctx.oblige("width: leaving early is reported by a warning naming --width", z3.BoolVal((kindr != "break") or warned))
+
+        out.append(Case(f"{PROP}/__main__.run_test#path-loop", kind, harness, sources=("halmos.__main__:run_test",)))
+    return out
+
+
+# ---------------------------------------------------------------------------------------
+# CounterexampleHandler._solve_end_to_end_callback / _get_solver_output
+
+
+class RecList(list):
+    pass
+
+
+def callback_cases():
+    out = []
+    kinds = ["unsat,core", "unsat,empty-core", "unsat,no-core", "err", "unknown", "sat,valid", "sat,valid,early-exit", "sat,invalid", "sat,no-model"]
+    for kind in kinds:
+        for probe in (False, True):
+
+            def harness(interp, kind=kind, probe=probe):
+                ctx = interp.ctx
+                parts = kind.split(",")
+                res = {"unsat": z3.unsat, "err": "err", "unknown": z3.unknown, "sat": z3.sat}[parts[0]]
+                model = None
+                if parts[0] == "sat" and "no-model" not in parts:
+                    model = NS(is_valid="valid" in parts)
+                core = {"core": ["7", "9"], "empty-core": [], "no-core": None}.get(parts[1]) if parts[0] == "unsat" else None
+                so = NS(result=res, model=model, path_id=4, unsat_core=core, error="boom", returncode=1, query_file="/nonexistent/q.smt2")
+                cores = []
+                shutdowns = []
+                fctx = NS(
+                    args=NS(verbose=0, early_exit="early-exit" in parts),
+                    solver_outputs=[],
+                    valid_counterexamples=[],
+                    invalid_counterexamples=[],
+                    call_sequences={4: ""},
+                    traces={},
+                    contract_ctx=NS(probes_reported=set()),
+                    info=NS(name="check_x"),
+                    solving_ctx=NS(executor=NS(shutdown=lambda wait=True: shutdowns.append(wait))),
+                )
+                fctx.append_unsat_core = lambda c: cores.append(c)
+                handler = object.__new__(hm.CounterexampleHandler)
+                object.__setattr__(handler, "ctx", fctx)
+                object.__setattr__(handler, "is_probe", probe)
+                object.__setattr__(handler, "is_invariant", False)
+                object.__setattr__(handler, "flamegraph_enabled", False)
+                object.__setattr__(handler, "potential_flamegraphs", {})
+                saved = []
+                interp.contracts["halmos.__main__:CounterexampleHandler._get_solver_output"] = lambda i, a, k: so
+                interp.contracts["halmos.__main__:CounterexampleHandler._save_failed_query"] = lambda i, a, k: saved.append(a[1:])
+                ex = NS(context=NS(message=NS(fun_info="probe-fun")))
+                n_log = len(ctx.ghost_log)
+                fn = hm.CounterexampleHandler.__dict__["_solve_end_to_end_callback"]
+                try:
+                    interp.call(fn, [handler, "future"], {"ex": ex, "path_ctx": NS(), "description": None})
+                except BaseException as e:
+                    if isinstance(e, _ENGINE):
+                        raise
+                    ctx.oblige(f"no-exception[{type(e).__name__}]", z3.BoolVal(False), info={"msg": str(e)[:200]})
+                    return
+                ctx.oblige("exactly-one-outcome-recorded-per-solver-job", z3.BoolVal(len(fctx.solver_outputs) == 1 and fctx.solver_outputs[0] is so), info={"n": len(fctx.solver_outputs)})
+                v, iv = fctx.valid_counterexamples, fctx.invalid_counterexamples
+                if parts[0] == "sat" and model is not None and model.is_valid:
+                    ctx.oblige("valid model goes to valid_counterexamples only", z3.BoolVal(v == [model] and iv == []))
+                elif parts[0] == "sat" and model is not None:
+                    warned = any(e[0] == "warn_code" and e[1][0] is hm.COUNTEREXAMPLE_INVALID for e in ctx.ghost_log[n_log:])
+                    ctx.oblige("model depending on an abstraction goes to invalid_counterexamples only, with the warning", z3.BoolVal(v == [] and iv == [model] and warned))
+                else:
+                    ctx.oblige("no counterexample recorded without a sat model", z3.BoolVal(v == [] and iv == []))
+                if parts[0] == "unsat":
+                    ctx.oblige("unsat: a non-empty core is recorded; an empty or missing core is never recorded (it would match every query)", z3.BoolVal(cores == ([core] if core else [])), info={"recorded": str(cores)})
+                else:
+                    ctx.oblige("no unsat core recorded unless the answer is unsat", z3.BoolVal(cores == []))
+                ctx.oblige("early exit (executor shutdown without waiting) only after a valid counterexample with --early-exit", z3.BoolVal(shutdowns == ([False] if kind == "sat,valid,early-exit" else [])), info={"shutdowns": str(shutdowns)})
+                ctx.oblige("failed queries saved for err/unknown only", z3.BoolVal(len(saved) == (1 if parts[0] in ("err", "unknown") else 0)))
+
+            out.append(Case(f"{PROP}/__main__.CounterexampleHandler._solve_end_to_end_callback", f"{kind},probe={probe}", harness, sources=("halmos.__main__:CounterexampleHandler._solve_end_to_end_callback",)))
+
+    for kind in ("shutdown", "future-exception", "future-exception-benign", "result-raises", "result"):
+
+        def harness(interp, kind=kind):
+            ctx = interp.ctx
+            from halmos.processes import ShutdownError
+
+            good = NS(result=z3.unsat)
+            exc = ShutdownError() if kind == "future-exception-benign" else RuntimeError("solver crashed")
+
+            class Fut:
+                def exception(self):
+                    return exc if kind.startswith("future-exception") else None
+
+                def result(self):
+                    if kind == "result-raises":
+                        raise exc
+                    return good
+
+            fctx = NS(solving_ctx=NS(executor=NS(is_shutdown=lambda: kind == "shutdown")))
+            handler = object.__new__(hm.CounterexampleHandler)
+            object.__setattr__(handler, "ctx", fctx)
+            made = []
+
+            def from_error(i, a, k):
+                o = NS(result="err", error=a[0], **k)
+                made.append(o)
+                return o
+
+            interp.contracts["halmos.solve:SolverOutput.from_error"] = from_error
+            fn = hm.CounterexampleHandler.__dict__["_get_solver_output"]
+            try:
+                r = interp.call(fn, [handler, Fut(), NS(path_id=4, dump_file="/nonexistent/q.smt2")], {})
+            except BaseException as e:
+                if isinstance(e, _ENGINE):
+                    raise
+                ctx.oblige(f"no-exception-escapes[{type(e).__name__}]", z3.BoolVal(False), info={"msg": str(e)[:200]})
+                return
+            if kind == "result":
+                ctx.oblige("a completed job's own output is returned", z3.BoolVal(r is good and not made))
+            else:
+                ctx.oblige("shutdown / exception / failing result() all yield an `err` output, never unsat", z3.BoolVal(len(made) == 1 and r is made[0] and r.result == "err" and r.path_id == 4), info={"kind": kind})
+
+        out.append(Case(f"{PROP}/__main__.CounterexampleHandler._get_solver_output", kind, harness, sources=("halmos.__main__:CounterexampleHandler._get_solver_output",)))
+    return out
+
+
+# ---------------------------------------------------------------------------------------
+# _main: per-contract accounting and process exit code
+
+
+def main_fragments():
+    sf, node = loader.func_node(hm._main)
+    names = {"num_passed", "num_failed", "total_found", "total_passed", "total_failed"}
+    acc = []
+    loop = [n for n in ast.walk(node) if isinstance(n, ast.For) and "build_output_iterator" in ast.unparse(n.iter)]
+    if len(loop) != 1:
+        raise loader.BindingError("per-contract loop of _main not found")
+    for st in loop[0].body:
+        tgt = None
+        if isinstance(st, ast.Assign) and len(st.targets) == 1 and isinstance(st.targets[0], ast.Name):
+            tgt = st.targets[0].id
+        elif isinstance(st, ast.AugAssign) and isinstance(st.target, ast.Name):
+            tgt = st.target.id
+        if tgt in names:
+            acc.append(st)
+    if [ast.unparse(s).split(" ")[0] for s in acc] != ["num_passed", "num_failed", "total_found", "total_passed", "total_failed"]:
+        raise loader.BindingError(f"unexpected accounting statements in _main: {[ast.unparse(s) for s in acc]}")
+    tail = None
+    body = node.body
+    for k, st in enumerate(body):
+        if isinstance(st, ast.If) and ast.unparse(st.test) == "total_found == 0":
+            tail = body[k:]
+    if tail is None:
+        raise loader.BindingError("exit-code tail of _main not found")
+    return acc, tail
+
+
+def exit_code_cases():
+    out = []
+    for k in (0, 1, 2, 3):
+
+        def harness(interp, k=k):
+            ctx = interp.ctx
+            acc, tail = main_fragments()
+            codes = [SymInt(z3.Int(f"exitcode{j}")) for j in range(k)]
+            results = [NS(exitcode=c) for c in codes]
+            num_found = SymInt(z3.Int("num_found"))
+            ctx.assume(num_found.e >= k)  # run_contract returns at most one result per selected test ([] if setUp failed)
+            tf0, tp0, tfail0 = SymInt(z3.Int("total_found0")), SymInt(z3.Int("total_passed0")), SymInt(z3.Int("total_failed0"))
+            for v in (tf0, tp0, tfail0):
+                ctx.assume(v.e >= 0)
+            # invariant of the per-contract loop: failed = found - passed
+            ctx.assume(tfail0.e == tf0.e - tp0.e)
+            env = Env({"test_results": results, "num_found": num_found, "total_found": tf0, "total_passed": tp0, "total_failed": tfail0}, None, hm._main.__globals__)
+            kind, payload, _ = interp.exec_fragment(acc, env, qual="halmos.__main__:_main#accounting", is_gen=False)
+            if kind != "fallthrough":
+                ctx.oblige("accounting-falls-through", z3.BoolVal(False), info={"kind": kind, "payload": str(payload)[:200]})
+                return
+            passed_here = z3.Sum([z3.If(c.e == hm.Exitcode.PASS.value, 1, 0) for c in codes]) if codes else z3.IntVal(0)
+            tf, tp, tfail = iexpr(env.lookup("total_found")), iexpr(env.lookup("total_passed")), iexpr(env.lookup("total_failed"))
+            ctx.oblige("accounting: found += selected tests of the contract", tf == tf0.e + num_found.e)
+            ctx.oblige("accounting: passed += tests whose exit code is PASS", tp == tp0.e + passed_here)
+            ctx.oblige("accounting: failed = found - passed is preserved (a test without a result counts as failed)", tfail == tf - tp)
+
+        out.append(Case(f"{PROP}/__main__._main#accounting", f"{k} result(s)", harness, sources=("halmos.__main__:_main",)))
+
+    def harness_tail(interp):
+        ctx = interp.ctx
+        acc, tail = main_fragments()
+        tf, tfail = SymInt(z3.Int("total_found")), SymInt(z3.Int("total_failed"))
+        ctx.assume(tf.e >= 0)
+        ctx.assume(tfail.e >= 0)
+        ctx.assume(tfail.e <= tf.e)
+        exits = []
+
+        def on_exit(code):
+            exits.append(code)
+            return NS(exitcode=code)
+
+        interp.contracts["halmos.__main__:MainResult"] = lambda i, a, k: NS(exitcode=a[0])
+        interp.contracts["halmos.__main__:contract_regex"] = lambda i, a, k: "c"
+        interp.contracts["halmos.__main__:test_regex"] = lambda i, a, k: "t"
+        tp = SymInt(z3.Int("total_passed"))
+        ctx.assume(tp.e == tf.e - tfail.e)
+        env = Env({"total_found": tf, "total_failed": tfail, "total_passed": tp, "on_exit": on_exit, "args": NS()}, None, hm._main.__globals__)
+        kind, payload, _ = interp.exec_fragment(tail, env, qual="halmos.__main__:_main#exit-code", is_gen=False)
+        ctx.oblige("tail-returns-a-result", z3.BoolVal(kind == "return" and hasattr(payload, "exitcode")), info={"kind": kind, "payload": str(payload)[:100]})
+        if kind != "return" or not hasattr(payload, "exitcode"):
+            return
+        code = payload.exitcode
+        ctx.oblige("exit code is 0 iff some test ran and none failed", z3.BoolVal(code == 0) == z3.And(tf.e > 0, tfail.e == 0), info={"code": code})
+        ctx.oblige("exit code is 0 or 1", z3.BoolVal(code in (0, 1)))
+
+    out.append(Case(f"{PROP}/__main__._main#exit-code", "all totals", harness_tail, sources=("halmos.__main__:_main",)))
+    return out
+
+
 def build_cases(tier="quick"):
-    return verdict_cases() + from_result_cases() + timeout_cases()
+    return verdict_cases() + from_result_cases() + timeout_cases() + classification_cases() + callback_cases() + exit_code_cases()
 
 
 def grounds():
